@@ -266,7 +266,7 @@ inline void GraphData::reset() noexcept {
   _acquired.store(false, ::std::memory_order_relaxed);
   _empty = true;
   _has_preset_value = false;
-  _active = false;
+  _active.store(false, ::std::memory_order_relaxed);
   _closure.store(nullptr, ::std::memory_order_relaxed);
   _depend_state.store(0, ::std::memory_order_relaxed);
   _producer_done_num.store(0, ::std::memory_order_relaxed);
@@ -500,9 +500,7 @@ inline bool GraphData::has_preset_value() const noexcept {
 }
 
 inline bool GraphData::mark_active() noexcept {
-  bool already_active = _active;
-  _active = true;
-  return already_active;
+  return _active.exchange(true, ::std::memory_order_relaxed);
 }
 
 inline bool GraphData::acquire_immutable_depend() noexcept {
